@@ -122,6 +122,7 @@ def explore_body(ip, thunk, context_free=True):
         sub.clause_mode = getattr(ip, "clause_mode", None)
         sub._active_closures = ip.__dict__.setdefault("_active_closures", [])
         sub._try_depth = ip.__dict__.setdefault("_try_depth", [0])
+        sub._active_funcs = ip.__dict__.setdefault("_active_funcs", [])
         sub.frame_only = getattr(ip, "frame_only", False)
         sub.opaque_objects = getattr(ip, "opaque_objects", False)
         try:
